@@ -46,6 +46,21 @@ def gen(tier, seed, salt, n_quick, n_thorough, fixed=True):
                 for tod in ("00:00:00", "09:30:15.250000", "23:59:59.999999"):
                     cases.append({"g": "G1/weekday+day-of-month/today", "t": t, "ts": "%sT%s" % (d.isoformat(), tod),
                                   "o": {"latent_time": True, "max_stack_depth": 10, "relative_match_len": 1.0, "scorer": "shipped", "debug": False}})
+    if fixed:
+        # long chains of fully written date-times: one production of 30-100 rule applications, so that the scorer's class
+        # log-likelihoods leave the range in which exp() is representable (scores must stay finite, the parse total)
+        wd = ["monday", "tuesday", "wednesday", "thursday", "friday", "saturday", "sunday"]
+        for n_groups in ((3, 4, 5, 6, 7, 8) if tier == "thorough" else (4, 6, 8)):
+            for style in (0, 1):
+                grp = []
+                for i in range(n_groups):
+                    if style == 0:
+                        grp.append("%s %dth september 2022 %d:30" % (wd[i % 7], 5 + i, 10 + i))      # 5.9.2022 is a monday
+                    else:
+                        grp.append("%s %d.9.2022 %d:30" % (wd[i % 7][:3], 5 + i, 10 + i))
+                for lat in (True, False):
+                    cases.append({"g": "G1/long-chain", "t": " ".join(grp), "ts": "2021-03-10T12:43:30",
+                                  "o": {"latent_time": lat, "max_stack_depth": 10, "relative_match_len": 1.0, "scorer": "shipped", "debug": False}})
     # coverage-guided corpus (vf/tools/covsoup.py): texts that each showed a rule-application signature no other kept text
     # shows; an input list only -- the monitors of the property decide on the current tree
     cov = cov_entries()
